@@ -46,12 +46,13 @@ def gen_case(ch: Chooser, excl=()):
         import copy
         # rebuild the C08 model (we need the model, not its free-form text)
         proj = c08_model(ch, tuple(excl))
-    feats = {"comments": True}
+    feats = {"comments": True, "include_split": "include" not in excl}
     seq_pool = ["SEQ00010", "12345678", "x = 1", "abc"]
     if "seq_bang" not in excl:
         seq_pool += ["!seq0010", "!>x", "!!doc"]
     free, u1 = render.render_project(proj, ch, features=feats)
-    fixed, u2 = render.render_project(proj, ch, features=dict(feats, seq_pool=seq_pool), form="fixed", length_limit=limit)
+    fixed, u2 = render.render_project(proj, ch, features=dict(feats, seq_pool=seq_pool, fixed_exts=True), form="fixed",
+                                      length_limit=limit)
     if not limit:
         # with the limit off nothing is cut at column 72: make some lines long on purpose is left to the
         # renderer (inline docs may run past column 72)
